@@ -11,6 +11,7 @@ import Proofs.Dom
 import Proofs.FromDom
 import Proofs.Placement
 import Proofs.PlacementValid
+import Proofs.PlacementMarks
 namespace PM.C19
 open PM.Dom
 
@@ -420,9 +421,10 @@ open PM.FromDom in
     content-expression clause of `Node.check`, recursively; the nodes filled in by `fill_before` /
     `create_and_fill` included).
 
-    Hypotheses on the schema (both decidable, `det_of_detB`, `textStable_of_B`; checked on every schema
-    of the tie by the driver):
+    Hypotheses on the schema (all decidable, `det_of_detB`, `textStable_of_B`, `leafOk_of_B`; evaluated on
+    every schema of the tie by the driver):
     * `Det S` — the automata are deterministic;
+    * `LeafOk S` — leaf types accept the empty content (only used for the leaf nodes themselves);
     * `TextStable S` — reading a text node leads to a state with the same edges and the same
       acceptance as the state before.  Needed because `NodeContext.finish` strips a trailing
       whitespace-only text node *after* `match` has advanced over it, and `Fragment.from_` merges adjacent
@@ -430,15 +432,15 @@ open PM.FromDom in
       `fig: "hard_break image? (text | hard_break)"` the HTML `<figure><br><img src="a"> </figure>` parses to
       `fig(hard_break, image)`, which `check()` rejects.
 
-    Full validity (`Schema.checkNode doc`) additionally needs: marks of every child allowed by its parent
-    and canonical (not covered here), attributes (computed by `compute_attrs`: present by construction, values
-    not checked by `check()`), and `accepts []` for leaf types (schema data). -/
+    The mark clauses of `check()` are the subject of `placement_finish_marks`; `placement_finish_valid`
+    puts both together.  Attributes: `compute_attrs` supplies every declared attribute (or `finish` raises);
+    `check()` does not look at attribute values. -/
 theorem placement_finish_valid_partial (S : Schema) (wsPre : TypeId → Bool) (hdet : Det S) (hts : TextStable S)
-    (pw : WS) (events : List Event) (hev : ∀ e ∈ events, WalkOk S e)
+    (hleaf : LeafOk S) (pw : WS) (events : List Event) (hev : ∀ e ∈ events, WalkOk S e)
     (st : FromDom.PState) (doc : Node) (rest : List Node)
     (hrun : PState.run S wsPre (PState.init S false pw false) events = .ok st)
     (hfin : st.finish S = .ok (some doc, rest)) : contentOk S doc = true := by
-  have hfo := finishOk_contentOk S hdet hts
+  have hfo := finishOk_contentOk S hdet hts hleaf
   have hc := run_spec S (fun n => contentOk S n = true) hfo wsPre (fun w => hdet w 0) events _ st
     (init_coh S _ pw false) (by
       intro e he
@@ -448,7 +450,38 @@ theorem placement_finish_valid_partial (S : Schema) (wsPre : TypeId → Bool) (h
       | closeExtra oe => simp only [WalkOk] at this; subst this; exact hfo
       | _ => trivial) hrun
   have hf := run_flags S wsPre events _ st hrun
-  exact finish_valid S hdet hts st doc rest hc hf hfin
+  exact finish_valid S hdet hts hleaf st doc rest hc hf hfin
+
+open PM.FromDom in
+/-- **the finished document has valid marks** (the mark clauses of `Node.check`, for every event list —
+    `parse` and `parse_slice` alike, no hypothesis on the schema): every node of the result carries a
+    canonical mark set (`canonicalMarks`: sorted by rank, no duplicates, no excluded pair) that its parent's
+    type allows (`allowsMarks`), down to the filled-in nodes.  The walk only has to hand over nodes whose
+    *descendants* have valid marks (`WalkMarksOk`; trivially true of text and leaf nodes) — the node's own
+    marks are recomputed by `insert_node` from the active marks. -/
+theorem placement_finish_marks (S : Schema) (wsPre : TypeId → Bool) (isOpen : Bool) (pw : WS) (topOpen : Bool)
+    (events : List Event) (hev : ∀ e ∈ events, WalkMarksOk S e)
+    (st : FromDom.PState) (doc : Node) (rest : List Node)
+    (hrun : PState.run S wsPre (PState.init S isOpen pw topOpen) events = .ok st)
+    (hfin : st.finish S = .ok (some doc, rest)) : marksOkB S none doc = true :=
+  finish_marks S st doc rest (run_minv S wsPre events _ st (init_minv S isOpen pw topOpen) hev hrun) hfin
+
+open PM.FromDom in
+/-- **`parse` returns a schema-valid document** — `Node.check()` in full (`Schema.checkNode`: content
+    expressions, marks allowed and canonical, at every level) — for **every** list of calls the DOM walk
+    can make into the placement core, hence for every HTML input, whenever `finish` returns at all.
+    Schema hypotheses: `Det`, `TextStable`, `LeafOk` (see `placement_finish_valid_partial`; `TextStable`
+    cannot be dropped — the real parser returns an invalid document without it).  Walk hypotheses: nodes
+    handed to `insert_node` are valid below their own marks, `close_extra` is called with `open_end = False`. -/
+theorem placement_finish_valid (S : Schema) (wsPre : TypeId → Bool) (hdet : Det S) (hts : TextStable S)
+    (hleaf : LeafOk S) (pw : WS) (events : List Event)
+    (hev : ∀ e ∈ events, WalkOk S e) (hevm : ∀ e ∈ events, WalkMarksOk S e)
+    (st : FromDom.PState) (doc : Node) (rest : List Node)
+    (hrun : PState.run S wsPre (PState.init S false pw false) events = .ok st)
+    (hfin : st.finish S = .ok (some doc, rest)) : S.checkNode doc = true :=
+  checkNode_of S doc none
+    (placement_finish_valid_partial S wsPre hdet hts hleaf pw events hev st doc rest hrun hfin)
+    (placement_finish_marks S wsPre false pw false events hevm st doc rest hrun hfin)
 
 section Examples
 open PM.FromDom
@@ -479,6 +512,8 @@ private def S3 : Schema :=
     marks := #[], top := 0, textTy := 2 }
 example : Det S3 := det_of_detB S3 (by decide)
 example : TextStable S3 := textStable_of_B S3 (by decide)
+example : LeafOk S3 := leafOk_of_B S3 (by decide)
+example : WalkMarksOk S3 (.insertNode (.text [104, 105] [])) := rfl
 -- the stack after the walk inserted the text "hi" at top level: `find_place` wrapped it in a `p`; both
 -- contexts carry the match their content (+ open child) leads to
 example : ((PState.run S3 (fun _ => false) (PState.init S3 false .unset false) [.insertNode (.text [104, 105] [])]).toOption.map
